@@ -61,6 +61,8 @@ pub enum Fault {
     /// binary: the first relocation entry now names the address of a relocation entry of another
     /// stored file (two files claiming the same word)
     RelocFrom { other: usize },
+    /// binary: a code block of zero words inserted in front of the first chunk
+    EmptyBlockAt { addr: u16 },
 }
 #[derive(Clone, Debug, Serialize, Deserialize, PartialEq)]
 pub struct TScn {
@@ -639,6 +641,13 @@ fn apply_fault(bytes: &mut Vec<u8>, f: &Fault, others: &[Vec<u8>], text: bool) {
                 }
             }
         }
+        Fault::EmptyBlockAt { addr } => {
+            if bytes.len() >= 7 {
+                let tail = bytes.split_off(7);
+                bytes.extend_from_slice(&[0, *addr as u8, (*addr >> 8) as u8, 0, 0]);
+                bytes.extend_from_slice(&tail);
+            }
+        }
         Fault::RelocFrom { other } => {
             let theirs = &others[*other % others.len().max(1)];
             let src = binary_chunks(theirs).into_iter().find(|(_, id)| *id == 4).map(|(p, _)| p);
@@ -775,6 +784,9 @@ fn gen_faults(r: &mut Rng, sample: &[u8], text: bool, nfiles: usize) -> Vec<Faul
     }
     if !text && r.chance(1, 6) {
         v.push(Fault::Nudge { k: r.below(64) as u32, delta: *r.pick(&[1i8, 2, 3, 5, 8, -1, -2, -3, 16, -16]) });
+    }
+    if !text && r.chance(1, 10) {
+        v.push(Fault::EmptyBlockAt { addr: *r.pick(&[0u16, 0, 1, 0x2FFF, 0x3000, 0xFDFF, 0xFE00, 0xFFFF]) });
     }
     if !text && nfiles > 1 && r.chance(1, 10) {
         v.push(Fault::RelocFrom { other: r.below(nfiles as u64) as usize });
@@ -1289,7 +1301,7 @@ fn fault_name(f: &Fault) -> &'static str {
         Fault::Field { .. } | Fault::ReplaceInLine { .. } => "fired.disk-field",
         Fault::InvalidUtf8 { .. } => "fired.disk-utf8",
         Fault::RandomBytes(_) => "fired.disk-random",
-        Fault::LineTableNearMax { .. } | Fault::BlockToTop { .. } | Fault::LabelSrcNearMax { .. } | Fault::Nudge { .. } | Fault::RelocFrom { .. } => "fired.disk-field",
+        Fault::LineTableNearMax { .. } | Fault::BlockToTop { .. } | Fault::LabelSrcNearMax { .. } | Fault::Nudge { .. } | Fault::RelocFrom { .. } | Fault::EmptyBlockAt { .. } => "fired.disk-field",
     }
 }
 
@@ -1354,6 +1366,8 @@ fn inject_src_fault(src: &str, kind: u8, at: u32) -> String {
         16 => lines.push("LATE_É".into()),
         // three labels stacked on one statement outside every block
         17 => lines.push("LA_Q\nLB_Q\nLC_Q .fill 1".into()),
+        // ... and exactly two
+        18 => lines.push("LA_Q\nLB_Q .fill 1".into()),
         _ => lines.push(".orig xFFF0\n.blkw 32\n.end".into()),
     }
     lines.join("\n")
@@ -1418,7 +1432,7 @@ impl Check for TCheck {
             }
             Prop::C26 => {
                 if r.chance(1, 2) {
-                    s.src_fault = Some((r.below(18) as u8, r.below(64) as u32));
+                    s.src_fault = Some((r.below(19) as u8, r.below(64) as u32));
                     s.files.truncate(1);
                 } else if r.chance(1, 3) {
                     // damaged-object arm: one file of the set went through a disk that rewrote the
